@@ -7,7 +7,7 @@ CHECKS = {
  "C01": dict(
   engine="SEQ+GEN",
   technique="explicit-state model checking: exhaustive BFS over bounded rule-lifecycle histories on the real Location with every event dispatched in every state, plus bounded-exhaustive (when,event) pair enumeration, reference-model oracle",
-  text="All AddRule/RemRule/AddFact-over-rule-id/EnableRule/Clear/ProcessEvent sequences up to depth 3 (quick) / 4 (thorough) over two rule ids and 15 when-patterns chosen to reach every PatternIndex node kind, on indexed and linear state with and without a parent location; in every reached canonical state all 12 events are dispatched and the dispatched set, bindings, dispositions and SearchRules candidates are compared with a reference model. Additionally every (when, event) pair of a bounded JSON grammar is run on a fresh index and fresh locations.",
+  text="All AddRule/RemRule/AddFact-over-rule-id/EnableRule/Clear/ProcessEvent sequences up to depth 3 (quick) / 4 (thorough) over two rule ids and 16 when-patterns chosen to reach every PatternIndex node kind, on indexed and linear state with and without a parent location; in every reached canonical state all 14 events are dispatched and the dispatched set, bindings, dispositions and SearchRules candidates are compared with a reference model. Additionally every (when, event) pair of a bounded JSON grammar is run on a fresh index and fresh locations.",
   note="Trusts core.Matches as the definition of a match (C05), explicit {when:{pattern}} rule form, the L1 rewriter. Histories behind a state-diverging violation are not expanded.",
   design="2/C01"),
  "C03": dict(
@@ -92,7 +92,7 @@ CHECKS = {
  "C19": dict(
   engine="GEN+SEQ",
   technique="exhaustive enumeration of the product protection state x caller context x operation x set-up history on the real Location (directly and via sys.System), privileged before/after snapshot and unprotected-twin oracle",
-  text="The full product of 16 protection states (write key x read key x read-only x disabled), 13 caller contexts (no/wrong/right write and read key, also as SubContexts), 29 operations (whole Location API, two trigger! events, Env.* location functions reached from RunJavascript, events whose rule actions mutate), 4 set-up histories, both states and both drivers is executed: a mutating call without write authority must fail and leave private state + storage identical, a revealing call without read authority must fail and return no data, a fully authorised call must equal the same call on an unprotected twin. Inherited path: a parent in each of the 16 protection states is reached through an unprotected child by 7 revealing operations (inherited SearchFacts / ListRules / SearchRules, Query, ProcessEvent, Env.Search, Env.Query) from the 13 caller contexts: without read authority over the parent none of the parent's facts or rules may come back, with it the answer equals the unprotected one.",
+  text="The full product of 16 protection states (write key x read key x read-only x disabled), 13 caller contexts (no/wrong/right write and read key, also as SubContexts), 30 operations (whole Location API, two trigger! events, an AddFact with a property-shaped body, Env.* location functions reached from RunJavascript, events whose rule actions mutate), 4 set-up histories, both states and both drivers is executed: a mutating call without write authority must fail and leave private state + storage identical, a revealing call without read authority must fail and return no data, a fully authorised call must equal the same call on an unprotected twin. Inherited path: a parent in each of the 16 protection states is reached through an unprotected child by 7 revealing operations (inherited SearchFacts / ListRules / SearchRules, Query, ProcessEvent, Env.Search, Env.Query) from the 13 caller contexts: without read authority over the parent none of the parent's facts or rules may come back, with it the answer equals the unprotected one.",
   note="The mutating/revealing classification is argued at the top of c19.go (RuleEnabled, GetParents unclassified). ListRules' documented swallowing of the search error (empty list) is accepted as a refusal.",
   design="2/C19"),
  "C20": dict(
